@@ -37,6 +37,9 @@ func allChecks() []*Check {
 					Thorough: map[string]int{"T": 2, "KL": 2, "VL": 3, "SL": 2, "VBL": 3, "M": 3, "ML": 2, "TL": 4}},
 				{Pkg: "client", Func: "VerifC01Ctcp", Quick: map[string]int{"T": 1, "KL": 1, "VL": 1, "SL": 1, "ML": 2, "CL": 2, "TL": 2},
 					Thorough: map[string]int{"T": 1, "KL": 2, "VL": 2, "SL": 2, "ML": 2, "CL": 3, "TL": 4}},
+				{Pkg: "client", Func: "VerifC01Deliver", Quick: map[string]int{"T": 1, "KL": 1, "VL": 1, "SL": 1, "VBL": 2, "TL": 1},
+					Thorough: map[string]int{"T": 1, "KL": 1, "VL": 2, "SL": 2, "VBL": 3, "TL": 3}, Asserts: []string{"delivered-equal", "next-line-delivered"}},
+				{Pkg: "client", Func: "VerifC01Deliver", Quick: map[string]int{"LONG": 1, "VBL": 1, "TL": 1}, Thorough: map[string]int{"LONG": 1, "VBL": 2, "TL": 2}, Asserts: []string{"delivered-equal", "next-line-delivered"}, Note: "long"},
 			},
 			Bounds:      map[string]string{"quick": "<=1 tag (key 1 B, value <=2 B), source parts 1 B, verb <=2 letters or 3 digits, <=2 middles of <=2 B with 1-2 spaces, trailing <=2 B; CTCP: verb <=2 B or ACTION, text <=2 B", "thorough": "<=2 tags (key <=2 B, value <=3 B), source parts <=2 B, verb <=3 letters or 3 digits, <=3 middles, trailing <=4 B; CTCP verb <=3 B, text <=4 B"},
 			Outside:     []string{"bytes >= 0x80", "larger components", "what the property itself excludes (other white space, several spaces before the verb, CTCP without text, invalid escapes)"},
@@ -48,6 +51,8 @@ func allChecks() []*Check {
 			Harnesses: []Harness{
 				{Pkg: "client", Func: "VerifC02Parse", Quick: map[string]int{"L": 6}, Thorough: map[string]int{"L": 9}},
 				{Pkg: "client", Func: "VerifC02Prefixed", Quick: map[string]int{"L": 4}, Thorough: map[string]int{"L": 7}},
+				{Pkg: "client", Func: "VerifC02Handlers", Quick: map[string]int{"L": 4}, Thorough: map[string]int{"L": 6}},
+				{Pkg: "client", Func: "VerifC02Recv", Quick: map[string]int{"L": 4}, Thorough: map[string]int{"L": 7}, Asserts: []string{"later-line-processed"}},
 			},
 			Bounds:      map[string]string{"quick": "every ASCII byte string of length <= 6", "thorough": "every ASCII byte string of length <= 9"},
 			Outside:     []string{"bytes >= 0x80", "longer lines"},
